@@ -145,6 +145,20 @@ def SafeSeqMode (t : List Ev) : Bool :=
   | some a => a.pc && (a.pm == .orig)
   | none => false
 
+/-- abstract run that additionally requires `path` to have the original permission bits in
+every state a crash can leave behind -/
+def absRunM : List Ev → Abs → Bool
+  | [], a => a.pm == .orig
+  | e :: es, a =>
+    (a.pm == .orig) &&
+    match absFail e.op a, absEv e a with
+    | some af, some a' => (af.pm == .orig) && absRunM es a'
+    | _, _ => false
+
+/-- Stronger than C26 asks: the permission bits of `path` are the original ones at EVERY crash
+point (not only after a complete run).  Reported by the driver, not required by the property. -/
+def ModeSafeSeq (t : List Ev) : Bool := absRunM t Abs.init
+
 /-! ## Concretisation -/
 
 section
@@ -662,6 +676,44 @@ theorem absRun_crash_safe : ∀ (t : List Ev) (a a' : Abs) (s : St) (k : Nat) (m
       exact absRun_crash_safe es a1 a' _ k mid _ (absEv_sound orig fmt mode e _ h he) ha
     · cases ha
 
+theorem Rel.mode_orig {a : Abs} {s : St} (h : Rel orig fmt mode a s) (hpm : a.pm = .orig) :
+    ∃ f, s.path = some f ∧ f.mode = mode := by
+  have hp := h.path
+  cases hs : s.path with
+  | none => simp [hs, pathOK] at hp
+  | some f =>
+    simp only [hs, pathOK, hpm, modeOK] at hp
+    exact ⟨f, rfl, hp.2⟩
+
+theorem absRunM_crash_mode : ∀ (t : List Ev) (a : Abs) (s : St) (k : Nat) (mid : Option Nat)
+    (pw : Nat → Nat),
+    Rel orig fmt mode a s → absRunM t a = true →
+    ∃ f, (runUntilCrash fmt t k mid pw s).path = some f ∧ f.mode = mode
+  | [], a, s, k, mid, pw, h, ha => by
+    simp only [absRunM, beq_iff_eq] at ha
+    simp only [runUntilCrash]; exact h.mode_orig orig fmt mode ha
+  | e :: es, a, s, 0, mid, pw, h, ha => by
+    simp only [absRunM, Bool.and_eq_true, beq_iff_eq] at ha
+    obtain ⟨hpm, ha⟩ := ha
+    split at ha
+    · rename_i af a1 hf he
+      simp only [Bool.and_eq_true, beq_iff_eq] at ha
+      cases mid with
+      | none => simp only [runUntilCrash]; exact h.mode_orig orig fmt mode hpm
+      | some n =>
+        simp only [runUntilCrash]
+        exact (absFail_sound orig fmt mode e.op n h hf).mode_orig orig fmt mode ha.1
+    · cases ha
+  | e :: es, a, s, k + 1, mid, pw, h, ha => by
+    simp only [absRunM, Bool.and_eq_true, beq_iff_eq] at ha
+    obtain ⟨hpm, ha⟩ := ha
+    split at ha
+    · rename_i af a1 hf he
+      simp only [Bool.and_eq_true, beq_iff_eq] at ha
+      simp only [runUntilCrash]
+      exact absRunM_crash_mode es a1 _ k mid _ (absEv_sound orig fmt mode e _ h he) ha.2
+    · cases ha
+
 end
 
 /-- **Generic crash-safety theorem**: a trace satisfying `SafeSeq` leaves, at every crash
@@ -695,5 +747,13 @@ theorem mode_kept_of_safeSeqMode (t : List Ev) (hs : SafeSeqMode t = true)
     | some f =>
       simp only [hsp, pathOK, hs.1, hs.2, modeOK, if_true] at hp
       cases f; simp_all
+
+/-- Generic theorem, stronger than C26 requires: a trace satisfying `ModeSafeSeq` leaves `path`
+with its original permission bits at every crash point. -/
+theorem crash_mode_of_modeSafeSeq (t : List Ev) (hs : ModeSafeSeq t = true)
+    (orig fmt : Bytes) (mode : Nat) (stale : Option File) (umask : Nat)
+    (k : Nat) (mid : Option Nat) (pw : Nat → Nat) :
+    ∃ f, (runUntilCrash fmt t k mid pw (init orig mode stale umask)).path = some f ∧ f.mode = mode :=
+  absRunM_crash_mode orig fmt mode t _ _ k mid pw (rel_init orig fmt mode stale umask) hs
 
 end GopModel.FS
